@@ -33,7 +33,8 @@ SUBSET
               in (hoisted `Option.bind`); this is only sound where Python evaluates it unconditionally, so such an
               expression inside `and` / `or` / a conditional expression / a comprehension element is Untranslatable.
               A number used as a condition means `≠ 0`, a Bytes value means `≠ []`; a bool used as a number means 0/1.
-  statements  NAME = e | NAME op= e | R['k'] = e | R['k'] op= e | t1, ..., tn = e  (e : List Nat; other length = ValueError)
+  statements  NAME = e | NAME op= e | R['k'] = e | R['k'] op= e
+              t1, ..., tn = e        e : List Nat, n = 2..4; another length = ValueError   -> (Py.unpack<n>? e).bind fun (t1, ..) =>
               R = { 'k1': e1, ... }  exactly once, first: R is then a RECORD: a set of locals `R_k`; R may otherwise only
               occur as R['const'] and in the final `return R`
               if / elif / else | raise ... (= none; the raised expression is not evaluated) | docstrings | pass
@@ -460,7 +461,10 @@ class BTr(pyarith.Tr):
                 for n in names:
                     self.env[n] = NAT
                 body = self.block(rest, kont)
-                return self.wrap(pre, f'(match {v} with\n| [{", ".join(lname(n) for n in names)}] =>\n{par(body)}\n| _ => none)')
+                if not 2 <= len(names) <= 4:
+                    raise Untranslatable(f'unpacking into {len(names)} targets')
+                pat = ', '.join(lname(n) for n in names)
+                return self.wrap(pre, f'(Py.unpack{len(names)}? {v}).bind fun (({pat}) : {" × ".join([NAT] * len(names))}) =>\n{body}')
             name = self.target_name(tg)
             v, t = self.stored(self.expr(s.value))
             pre = self.take_pre()
